@@ -4,6 +4,7 @@ import Driver.Ops.Attempt
 import Driver.Ops.Client
 import Driver.Ops.Data
 import Driver.Ops.Disk
+import Driver.Ops.Edge
 import Driver.Ops.Envelope
 import Driver.Ops.Policy
 import Driver.Ops.Pool
@@ -23,6 +24,7 @@ def dispatch (line : String) : String :=
   | "client" :: rest => clientOp rest
   | "data" :: rest => dataOp rest
   | "disk" :: rest => diskOp rest
+  | "edge" :: rest => edgeOp rest
   | "envelope" :: rest => envelopeOp rest
   | "policy" :: rest => policyOp rest
   | "pool" :: rest => poolOp rest
